@@ -81,6 +81,60 @@ Theorem C10_array_function : forall (V A X R : Type) (mat : V -> A) (f : list (a
 Proof. exact array_function_spec. Qed.
 Print Assumptions C10_array_function.
 
+(* the optional keywords of a call (out=, where=, dtype=, casting=, axis=, initial= ...): only the positional arguments are
+   converted, numpy's callable receives the keywords exactly as the caller gave them *)
+Theorem C10_keywords : forall (V A X K R : Type) (mat : V -> A) (f : list (arg V A X) -> K -> R) args kw,
+  array_ufunc_kw V A X K R mat f args kw = Some (f (map (materialised_expr V A X mat) args) kw)
+  /\ array_function_kw V A X K R mat f args kw = Some (f (map (materialised_expr V A X mat) args) kw).
+Proof. exact keywords_spec. Qed.
+Print Assumptions C10_keywords.
+
+(* np.<ufunc>(view, out=buffer, where=mask) on a sub-field view, g any elementwise function: the buffer receives what numpy
+   computes on np.array(view) where the mask is True and KEEPS its contents where the mask is False (the idiom
+   np.divide(a, las.return_number, out=fill, where=las.return_number != 0)) *)
+Theorem C10_ufunc_where_out : forall (F : Type) (g : Z -> F) m bs mask out,
+  length mask = length bs -> length out = length bs ->
+  exists r, sfv_ufunc_where g m bs mask out = Some r /\ length r = length bs
+    /\ forall i, nth_error r i = match nth_error mask i with
+                                 | Some true => option_map g (nth_error (sf_materialise m bs) i)
+                                 | Some false => nth_error out i
+                                 | None => None
+                                 end.
+Proof. exact @sfv_ufunc_where_spec. Qed.
+Print Assumptions C10_ufunc_where_out.
+
+(* several views in one call (np.concatenate([a.x, b.x, c.return_number]), np.where(m, a.x, b.x), np.hypot(a.x, b.y) ...),
+   of any classes, of any records, at any depth of lists/tuples: numpy's callable finally receives the same expression with
+   EVERY view replaced by np.array(view) — each one materialised by itself, with its own mask / scale / offset — and no
+   view is left *)
+Theorem C10_several_views : forall (V A X R : Type) (cls : V -> vclass) (mat : V -> A) (f : list (marg V A X) -> R) args,
+  dispatch V A X R cls mat (S (length (views_of V A X args))) f args = Some (f (map (mat_all V A X mat) args))
+  /\ views_of V A X (map (mat_all V A X mat) args) = [].
+Proof. exact dispatch_all. Qed.
+Print Assumptions C10_several_views.
+
+(* np.concatenate of scaled views of any records = np.concatenate of their materialisations ... *)
+Theorem C10_concatenate : forall (S O F : Type) (ap : S -> O -> Z -> F) (pieces : list (sview S O F)),
+  concatenate_views S O F ap pieces = np_concatenate F (map (materialise S O F ap) pieces).
+Proof. exact concatenate_views_spec. Qed.
+Print Assumptions C10_concatenate.
+
+(* ... for x / y / z / one-element dimensions: position by position the stored integer of piece j with the scale and the
+   offset of piece j *)
+Theorem C10_concatenate_pieces : forall (S O F : Type) (ap : S -> O -> Z -> F) (pieces : list (sview S O F)),
+  pieces <> [] -> forallb (is_v1 S O F) pieces = true ->
+  concatenate_views S O F ap pieces = Some (A1 (flat_map (piece_values S O F ap) pieces)).
+Proof. exact concat_pieces. Qed.
+Print Assumptions C10_concatenate_pieces.
+
+(* joining the stored integers and scaling once with the first piece's scaling gives that when every piece has the first
+   piece's scale and offset — EQUAL, not nearly equal: see the last lines of C10_nonvacuous for offsets 1000 / 1001 *)
+Theorem C10_concatenate_same_scaling : forall (S O F : Type) (ap : S -> O -> Z -> F) s o (pieces : list (sview S O F)),
+  pieces <> [] -> Forall (fun v => exists xs, v = V1 xs s o) pieces ->
+  concat_grid_first S O F ap pieces = concatenate_views S O F ap pieces.
+Proof. exact grid_first_same_scaling. Qed.
+Print Assumptions C10_concatenate_same_scaling.
+
 (* scaled views, any grid, any scales/offsets (different per element), any values function ap:
    indexing then materialising = materialising then numpy indexing — same values, same shape, same IndexErrors *)
 Theorem C10_scaled_index : forall (S O F : Type) (ap : S -> O -> Z -> F) ix (v : sview S O F),
@@ -163,7 +217,17 @@ Example C10_nonvacuous :
      | Some x => view_reduce positive Z Z ap_Z Z.leb RMax None x | None => None end = Some 220
   /\ option_map (materialise positive Z Z ap_Z)
        (chain positive Z Z ap_Z [IxRow (AInt 1); IxInt 2] (V2 [[1; 2; 3]; [4; 5; 6]] [1; 5; 20]%positive [10; -2; 100]))
-     = Some (Sc 220).
+     = Some (Sc 220)
+  (* np.add(return_number, 10, out=[-1, -2, -3], where=[True, False, True]) on bytes FD 00 3F: the middle position keeps -2 *)
+  /\ sfv_ufunc_where (fun v => v + 10) 7 [0xFD; 0x00; 0x3F] [true; false; true] [-1; -2; -3] = Some [15; -2; 17]
+  (* two tiles with the same scale and offsets 1000 / 1001: each piece is scaled with its own offset; joining the stored
+     integers and scaling them with the first tile's offset is NOT numpy's answer *)
+  /\ concatenate_views positive Z Z ap_Z [V1 [1; 2] 2%positive 1000; V1 [3] 2%positive 1001] = Some (A1 [1002; 1004; 1007])
+  /\ concat_grid_first positive Z Z ap_Z [V1 [1; 2] 2%positive 1000; V1 [3] 2%positive 1001] = Some (A1 [1002; 1004; 1006])
+  (* a scaled view, a sub-field view and a plain value in one call: two rounds of dispatch, nothing left unconverted *)
+  /\ dispatch nat Z unit (list (marg nat Z unit)) (fun v => if Nat.even v then CScaled else CSubField) (fun v => Z.of_nat v * 10) 3
+       (fun a => a) [MSeq [MView 1%nat; MView 2%nat]; MOther tt; MView 3%nat]
+     = Some [MSeq [MArr 10; MArr 20]; MOther tt; MArr 30].
 Proof.
   split; [apply nth_error_In with (n := 0%nat); vm_compute; reflexivity|].
   split; [apply nth_error_In with (n := 49%nat); vm_compute; reflexivity|].
